@@ -269,7 +269,10 @@ Definition arrival_moves (p : prog) (c : cfg) (r : rstate) (id : nat) (e : event
       (pref ++ filter (fun '(a, _) => match pref with [(b, _)] => negb (Nat.eqb a b) | _ => true end) cs).
 
 (* result: (remaining budget, accepted) *)
-Fixpoint search (depth : nat) (budget : nat) (p : prog) (c : cfg) (final : option res)
+(* [live]: additionally require, at every release (= quiescent point of the implementation), a
+   model state in which no activation that is not parked can print (stuck_ok); silent chunks may
+   be committed first to reach such a state. *)
+Fixpoint search (live : bool) (depth : nat) (budget : nat) (p : prog) (c : cfg) (final : option res)
          (r : rstate) (os : list obs) : nat * bool :=
   match depth, budget with
   | O, _ => (0, false)
@@ -280,17 +283,26 @@ Fixpoint search (depth : nat) (budget : nat) (p : prog) (c : cfg) (final : optio
           match moves with
           | [] => (bud, false)
           | m :: rest =>
-              match search d bud p c final m os' with
+              match search live d bud p c final m os' with
               | (bud', true) => (bud', true)
               | (bud', false) => match bud' with O => (0, false) | _ => try_all bud' rest os' end
               end
           end in
       match os with
       | ORel id :: rest =>
-          match do_release p c r id with
-          | Some r' => search d b p c final r' rest
-          | None => (b, false)
-          end
+          let released :=
+            if negb live || stuck_ok p c r then
+              match do_release p c r id with
+              | Some r' => search live d b p c final r' rest
+              | None => (b, false)
+              end
+            else (b, false) in
+          if live then
+            match released with
+            | (bud, true) => (bud, true)
+            | (bud, false) => match bud with O => (0, false) | _ => try_all bud (silent_moves p c r) os end
+            end
+          else released
       | OArr id e hint :: rest =>
           match try_all b (arrival_moves p c r id e hint) rest with
           | (bud, true) => (bud, true)
@@ -329,12 +341,27 @@ Definition agree_code (p : prog) (c : cfg) (os : list obs) (final : option res) 
   match eager with
   | 0 => 0
   | code =>
-      match search (2 * length os + 400) search_budget p c final {| rs := init_state p; parked := [] |} os with
+      match search false (2 * length os + 400) search_budget p c final {| rs := init_state p; parked := [] |} os with
       | (_, true) => 0
       | (O, false) => 1
       | (_, false) => code
       end
   end.
+
+(* Liveness at the quiescent points of the implementation.  The eager strategy fixes ONE order of
+   the silent chunks; if the state it reaches can print where the implementation is blocked, that
+   may only mean the Go runtime took another of the orders the machine allows (e.g. an errgroup
+   cancellation that reached a sibling before it passed its context check).  So a failed eager
+   check is decided by the search: 0 = some execution of the machine reproduces the observations
+   and is blocked wherever the implementation was; 1 = inconclusive (budget); 2 = no execution of
+   the machine is blocked there: the implementation is stuck where the model says it must run. *)
+Definition live_code (p : prog) (c : cfg) (os : list obs) : nat :=
+  if eager_ok p c os then 0
+  else match search true (3 * length os + 600) search_budget p c None {| rs := init_state p; parked := [] |} os with
+       | (_, true) => 0
+       | (O, false) => 1
+       | (_, false) => 2
+       end.
 
 (* the observable trace of an observation list *)
 Definition obs_trace (os : list obs) : list event :=
